@@ -16,7 +16,9 @@ def swarm(rng):
     cfg.update({"p_handle": rng.choice([0.25, 0.4]), "n_steps": rng.choice([12, 20, 30]),
                 "p_sformula": rng.choice([0.3, 0.5]), "p_bases": rng.choice([0.4, 0.7]), "p_check": 0.15,
                 "base_switch": rng.random() < 0.3, "quiet": rng.random() < 0.3, "p_cellsless": rng.choice([0.0, 0.0, 0.4])})
-    if rng.random() < 0.15:
+    if rng.random() < 0.1:
+        cfg.update({"gadget_recalc_item": True, "recalc": True, "n_spaces": max(cfg["n_spaces"], 3)})
+    elif rng.random() < 0.15:
         cfg.update({"gadget_refs_only": True, "cellsless_paths": ["D", "C.U"], "n_spaces": max(cfg["n_spaces"], 3)})
     return cfg
 
@@ -378,7 +380,27 @@ class C13(PropBase):
                            {"op": "take_handle", "kind": "itemchild", "space": "C", "args": [1], "child": "U"},
                            {"op": "take_handle", "kind": "itemchild", "space": "C", "args": [2], "child": "U"}):
                     run.step(op)
+            if cfg.get("gadget_recalc_item"):
+                # recalculation on; an element that both the parameter formula of A and a cells inside A's ItemSpaces read:
+                # assigning to it discards the ItemSpace *and* lists its cells for recomputation
+                for op in ({"op": "new_space", "parent": "", "name": "B", "bases": []},
+                           {"op": "new_cells", "space": "B", "name": "f", "is_cached": True,
+                            "formula": {"style": "lambda", "params": [["x", None]], "ret": ["bin", "+", ["p", "x"], ["c", 5]]}},
+                           {"op": "new_space", "parent": "", "name": "A", "bases": [],
+                            "formula": {"params": [["i", None]], "ret": None, "probe": False,
+                                        "pre": ["call", ["_model", "B"], "f", [["c", 0]], "pos", ["x"]]}},
+                           {"op": "new_cells", "space": "A", "name": "g", "is_cached": True,
+                            "formula": {"style": "lambda", "params": [["x", None]],
+                                        "ret": ["bin", "+", ["call", ["_model", "B"], "f", [["c", 0]], "pos", ["x"]], ["n", "i"]]}},
+                           {"op": "eval", "loc": ["A", ["item", [1], "idx"]], "name": "g", "args": [2], "spell": "pos"},
+                           {"op": "take_handle", "kind": "dyncells", "space": "A", "args": [1], "name": "g"}):
+                    run.step(op)
             run.generate(WEIGHTS, cfg["n_steps"], 0.0 if cfg.get("quiet") else cfg["p_check"])
+            if cfg.get("gadget_recalc_item"):
+                for op in ({"op": "set_value", "space": "B", "name": "f", "args": [0], "value": 900077, "how": "setitem"},
+                           {"op": "eval", "loc": ["A", ["item", [1], "idx"]], "name": "g", "args": [2], "spell": "pos"},
+                           {"op": "checkpoint", "extra": [], "final": True}):
+                    run.step(op)
         else:
             run.replay(ctx.doc["steps"])
         run.finish()
